@@ -35,7 +35,7 @@ def validate(chk, wd, traces, tag="v"):
     todo.sort(key=lambda t: -len(t["events"]))
     shards = [[] for _ in range(NPROC)]
     for k, t in enumerate(todo):
-        shards[k % NPROC].append({k2: v for k2, v in t.items() if k2 not in ("case", "solutions", "ctor_error")})
+        shards[k % NPROC].append({k2: v for k2, v in t.items() if k2 not in ("case", "solutions", "ctor_error", "z3_unknowns")})
 
     def val(ks):
         k, shard = ks
